@@ -12,6 +12,7 @@ case kinds
   {"kind": "expand", "rsmi": r}                                                CanonRSMI.expand_aam(r): map numbers of every atom afterwards
   {"kind": "balstr", "rsmis": [..]}                                            rsmi_balance_check at string level (split, formula ==, ValueError)
   {"kind": "equiv", "rsmis": [..], "method": "RC"|"ITS"}                       AAMValidator.check_equivariant_graph on the graphs of the strings
+  {"kind": "validate", "rows": [{gt, x, y, z}], "cols": [..], "method", "ia", "df"}  AAMValidator.validate_smiles: per column results / count / n
   {"kind": "subgraph", "rsmi": r, "side": 0|1, "keep": [ids]}                  NormalizeAAM.extract_subgraph / reset_indices_and_atom_map on a parsed side
   {"kind": "fixaam", "rsmi": r}                                                FixAAM.fix_aam_rsmi(r) parsed again = the graphs of r with every id + 1 (+ the norm oracle)
 
@@ -380,6 +381,20 @@ def impl(case):
         return ST.balstr_impl(case)
     if k == "equiv":
         return ST.equiv_impl(case)
+    if k == "validate":
+        from synkit.Chem.Reaction.aam_validator import AAMValidator
+        data = [dict(r) for r in case["rows"]]
+        if case.get("df"):
+            import pandas as pd
+            data = pd.DataFrame(data)
+        res = AAMValidator.validate_smiles(data, "gt", list(case["cols"]), case["method"], case["ia"], 1, 0, True)
+        n = len(case["rows"])
+        out = []
+        for col, r in zip(case["cols"], res):
+            rs = [bool(x) for x in r["results"]]
+            acc = round(100 * (sum(rs) / n), 2) if n else 0.0
+            out.append([rs, sum(rs), n, r["mapper"] == col and r["accuracy"] == acc and len(r["results"]) == n])
+        return out
     if k == "subgraph":
         from synkit.Graph.ITS.normalize_aam import NormalizeAAM
         gh = _valid_graphs(case["rsmi"])
@@ -455,6 +470,24 @@ def coq_case(case):
             return ST.expand_term(case["rsmi"])
         if k == "balstr":
             return ST.balstr_term(case)
+        if k == "validate":
+            if not ST.ascii_ok(case["method"]):
+                return None
+            memo = {}
+
+            def opt(r):
+                if r not in memo:
+                    gh = _valid_graphs(r)
+                    if gh is not None and not _simple(*gh):
+                        raise ValueError("outside")
+                    memo[r] = "None" if gh is None else "(Some (%s, %s))" % (E.coq_mgraph(E.from_nx(gh[0])), E.coq_mgraph(E.from_nx(gh[1])))
+                return memo[r]
+            if case["method"].upper() != "RC":
+                gs = [_valid_graphs(r[c]) for r in case["rows"] for c in ["gt"] + list(case["cols"])]
+                if not _its_in_domain([g for g in gs if g is not None] or [_valid_graphs("[CH4:1]>>[CH4:1]")]):
+                    return None
+            rows = ["(%s, [%s])" % (opt(r["gt"]), "; ".join(opt(r[c]) for c in case["cols"])) for r in case["rows"]]
+            return "run_validate %s %s %d%%nat [%s]" % (ST.cbytes(case["method"]), "true" if case["ia"] else "false", len(case["cols"]), "; ".join(rows))
         if k == "subgraph":
             gh = _valid_graphs(case["rsmi"])
             if gh is None or not _simple(*gh):
@@ -792,6 +825,19 @@ def _oracle_balstr(case):
     return fails[:3]
 
 
+def _oracle_validate(case):
+    """validate_smiles: every entry of every column is the reference verdict of (mapped, ground truth) of its record"""
+    from synkit.Chem.Reaction.aam_validator import AAMValidator
+    res = AAMValidator.validate_smiles([dict(r) for r in case["rows"]], "gt", list(case["cols"]), case["method"], case["ia"], 1, 0, True)
+    fails = []
+    for col, r in zip(case["cols"], res):
+        want = [_ref_check(dict(m=row[col], t=row["gt"], method=case["method"], ia=case["ia"])) for row in case["rows"]]
+        bad = [i for i, (w, g) in enumerate(zip(want, r["results"])) if w is not None and bool(g) != w]
+        if bad or len(r["results"]) != len(case["rows"]):
+            fails.append(_fail("validator-batch", "column %s: results %r, reference %r (%s, ia=%r)" % (col, list(r["results"]), want, case["method"], case["ia"])))
+    return fails[:3]
+
+
 def oracle(case):
     worker_init()
     k = case["kind"]
@@ -801,6 +847,8 @@ def oracle(case):
         return _oracle_equiv(case)
     if k == "balstr":
         return _oracle_balstr(case)
+    if k == "validate":
+        return _oracle_validate(case)
     if k == "fixaam":
         return _oracle_norm(case)
     if k.startswith("hist-"):
@@ -841,6 +889,8 @@ def nontrivial(case, obs):
         return isinstance(obs, list) and len(obs) == 2
     if k == "subgraph":
         return isinstance(obs, list) and len(obs) == 3 and len(case["keep"]) >= 2
+    if k == "validate":
+        return isinstance(obs, list) and len(case["rows"]) >= 2
     return (k == "std" and bool(case.get("variants"))) or k == "norm"
 
 
@@ -870,7 +920,7 @@ def distribution(cases, obss):
             if c["backend"] == "nauty" and n > NAUTY_MAX_ATOMS:
                 outside["nauty_too_big"] += 1
     d["outside_model_bounds"] = outside
-    d["string_level"] = {kk: sum(1 for c in cases if c["kind"] == kk) for kk in ("std", "expand", "equiv", "balstr", "fixaam", "norm", "subgraph")}
+    d["string_level"] = {kk: sum(1 for c in cases if c["kind"] == kk) for kk in ("std", "expand", "equiv", "balstr", "fixaam", "norm", "subgraph", "validate")}
     d["std_strings"] = sum(1 + len(c.get("variants", [])) for c in cases if c["kind"] == "std")
     d["expand_unmapped_atoms"] = {}
     for c, o in zip(cases, obss):
@@ -894,6 +944,9 @@ HAND_BALANCE = [
     "[H+].[OH-]>>O", "[H+].[OH-]>>[OH-]", "CC>>C.C", "C=C.[H][H]>>CC", "c1ccccc1>>C1=CC=CC=C1", "N>>[NH4+]", "[NH4+].[OH-]>>N.O",
     "O=C=O>>[C-]#[O+].[O]", "CCO>>CC=O", "CCO>>CC=O.[H][H]", "[Fe+2]>>[Fe+3]", "C[N+](C)(C)C.[Cl-]>>CN(C)C.CCl",
 ]
+
+PBV = ("[CH3:5][CH2:4][CH2:1][Br:2].[OH-:3]>>[CH3:5][CH2:4][CH2:1][OH:3].[Br-:2]",
+       "[CH3:6][CH2:5][CH2:4][CH2:1][Br:2].[OH-:3]>>[CH3:6][CH2:5][CH2:4][CH2:1][OH:3].[Br-:2]")
 
 HAND_CANON = [
     "[CH3:3][CH2:5][OH:10]>>[CH2:3]=[CH2:5].[OH2:10]",
@@ -1049,6 +1102,14 @@ def gen_histories(tier, rng, corp):
             if len(R.map_numbers(t)) <= 10:
                 steps.insert(1, chk(m, t, "RC", True, "taut"))
             cases.append(_hist("valid", steps, src))
+    # option handling of check_method: two DIFFERENT reactions with isomorphic centres (propyl / butyl bromide + hydroxide): the RC verdict is
+    # True, the ITS verdict False, so every spelling of the method shows which graphs were compared
+    PB = ("[CH3:5][CH2:4][CH2:1][Br:2].[OH-:3]>>[CH3:5][CH2:4][CH2:1][OH:3].[Br-:2]",
+          "[CH3:6][CH2:5][CH2:4][CH2:1][Br:2].[OH-:3]>>[CH3:6][CH2:5][CH2:4][CH2:1][OH:3].[Br-:2]")
+    cases.append(_hist("valid", [chk(PB[0], PB[1], "RC", False, "pos"), chk(PB[0], PB[1], "ITS", False, "pos"), chk(PB[0], PB[1], "rc", False, "pos"),
+                                 chk(PB[1], PB[0], "Rc", False, "kw"), chk(PB[0], PB[1], "its", False, "inst"), chk(PB[0], PB[1], "foo", False, "pair"),
+                                 chk(PB[0], PB[1], "", False, "kw"), chk(PB[0], PB[1], "rC", True, "batch"), chk(PB[0], PB[1], "RC ", False, "df"),
+                                 chk(PB[1], PB[0], "RC", False, "default"), chk(PB[0], PB[1], "rc", False, "equiv")], "method-spelling"))
     for k in range(0, len(DEGENERATE), 3):
         steps = []
         for d in DEGENERATE[k:k + 3]:
@@ -1278,6 +1339,15 @@ def gen_cases(tier, rng):
             continue
         for keep in (rng.sample(ids, max(1, len(ids) // 2)), [], list(reversed(ids)), rng.sample(ids, min(3, len(ids))) * 2 + [max(ids) + 5, 0]):
             cases.append(dict(kind="subgraph", rsmi=t, side=n_ % 2, keep=keep, src="%s#%d" % (s, i)))
+    # validate_smiles: several records, three mapper columns (renumbered / wrong / other reaction), options given positionally
+    for n_ in range(0, len(eq_pool) - 2, 2 if q else 1):
+        ts = [x[2] for x in eq_pool[n_:n_ + 3]]
+        rows = []
+        for k_, t in enumerate(ts):
+            rows.append(dict(gt=t, x=_rewrite(t, rng), y=_swap_of(t, rng) or t, z=R.renumber_maps(ts[(k_ + 1) % 3], rng), extra=k_))
+        meth, ia = [("RC", False), ("ITS", False), ("rc", True), ("its", True), ("Rc", False)][n_ % 5]
+        cases.append(dict(kind="validate", rows=rows, cols=["x", "y", "z"], method=meth, ia=ia, df=bool(n_ % 4), src="pool#%d" % n_))
+    cases.append(dict(kind="validate", rows=[dict(gt=PBV[0], x=PBV[1], y=">>", z="C>>")], cols=["z", "x", "y"], method="rc", ia=False, src="hand"))
     cases.append(dict(kind="equiv", rsmis=[], method="RC", src="empty"))
     cases.append(dict(kind="equiv", rsmis=[HAND_CANON[2]], method="RC", src="single"))
     odd = ["a>>b>>c", "xx>>yy", "C>C", "", "C>>>C", ">>>>", "C.>>C", "[H+].[OH-]>>O>>O"]
